@@ -27,9 +27,9 @@ func (Engine) DistinctRule() string {
 // Profile is the generator profile of this engine.
 func Profile() *world.Profile {
 	p := &world.Profile{
-		Patterns:   world.RichPatterns,
-		MwCounts:   []int{0, 1, 2, 3, 5, 6, 7},
-		LoggerPm:   300,
+		Patterns: world.RichPatterns,
+		MwCounts: []int{0, 1, 2, 3, 5, 6, 7},
+		LoggerPm: 300, ReqLoggerPm: 500,
 		RecoveryPm: 500,
 		RendererPm: 400,
 		StaticPm:   250,
@@ -63,7 +63,7 @@ func Profile() *world.Profile {
 	for i, w := range map[int]int{world.OpYield: 5, world.OpWriteHeader: 0, world.OpWrite: 0, world.OpFlush: 0, world.OpNext: 4, world.OpNextSwallow: 1,
 		world.OpCancel: 0, world.OpMapExtra: 2, world.OpSeeExtra: 4, world.OpEcho: 0, world.OpMark: 4, world.OpCheckMark: 4, world.OpSetHeader: 3,
 		world.OpBefore: 1, world.OpRender: 1, world.OpRedirect: 1, world.OpStatus: 2, world.OpCookie: 1, world.OpSeeSvc: 2,
-		world.OpMapIface: 1, world.OpSeeIface: 3, world.OpInvoke: 2, world.OpApply: 1, world.OpSeeBody: 2, world.OpMapRH: 1, world.OpMutQuery: 2} {
+		world.OpMapIface: 1, world.OpSeeIface: 3, world.OpInvoke: 2, world.OpApply: 1, world.OpSeeBody: 2, world.OpMapRH: 1, world.OpMutQuery: 2, world.OpSeeNamer: 3} {
 		p.Ops[i] = w
 	}
 	return p
